@@ -41,6 +41,7 @@ type world struct {
 	wants    map[int]map[string]map[string]want // class -> iface -> cidr -> want
 	fresh    bool                               // no out-of-band route edit since the last successful full resync
 	needFull bool
+	tainted  bool // a route-listing failure was swallowed by a per-interface rescan and no full resync has happened since
 }
 
 func kindOf(r *netlink.Route) string {
@@ -106,6 +107,38 @@ func showK(k map[string]string) string {
 		parts[i] = c + "=" + k[c]
 	}
 	return "K{" + strings.Join(parts, ";") + "}"
+}
+
+func showVR(rs []routetable.VerifRoute) string {
+	m := map[string]string{}
+	for _, r := range rs {
+		gw := "-"
+		if r.GW != "" {
+			gw = r.GW
+		}
+		kind := fmt.Sprintf("other:%d:%d:%v", r.Type, r.Scope, r.OnLink)
+		switch {
+		case r.Type == unix.RTN_UNICAST && r.Scope == int(netlink.SCOPE_LINK) && !r.OnLink && r.Src == "" && r.MTU == 0 && r.NextHops == 0:
+			kind = "link"
+		case r.Type == unix.RTN_UNICAST && r.Scope == int(netlink.SCOPE_UNIVERSE) && r.OnLink && r.Src == "" && r.MTU == 0 && r.NextHops == 0:
+			kind = "vxlan"
+		case r.Type == unix.RTN_UNICAST && r.Scope == int(netlink.SCOPE_UNIVERSE) && !r.OnLink && r.Src == "" && r.MTU == 0 && r.NextHops == 0:
+			kind = "univ"
+		}
+		m[r.CIDR] = fmt.Sprintf("%d/%s/%d/%s", r.Ifindex, gw, r.Proto, kind)
+	}
+	return strings.TrimPrefix(showK(m), "K")
+}
+
+func (w *world) showAll() string {
+	st := w.tbl.VerifState()
+	rs := append([]string{}, st.Rescan...)
+	sort.Strings(rs)
+	f := "0"
+	if st.FullResync {
+		f = "1"
+	}
+	return showK(w.kernel()) + " D" + showVR(st.Desired) + " P" + showVR(st.Dataplane) + " R{" + strings.Join(rs, ",") + "} f" + f
 }
 
 func target(cidr, gw, kind string) routetable.Target {
@@ -181,10 +214,18 @@ func exec(w *world, op string) string {
 			routetable.WithTimeShim(mocktime.New()), routetable.WithConntrackShim(w.dp), routetable.WithNetlinkHandleShim(w.dp.NewMockNetlink))
 		w.ifaces = map[string][2]int{}
 		w.wants = map[int]map[string]map[string]want{}
-		w.fresh, w.needFull = false, true
+		w.fresh, w.needFull, w.tainted = false, true, false
 		return "ok"
 	case "iface":
 		idx := atoi(ws[2])
+		if ws[3] != "up" {
+			// the kernel removes the routes of an interface that goes down or away
+			for k, r := range w.dp.RouteKeyToRoute {
+				if r.LinkIndex == idx {
+					delete(w.dp.RouteKeyToRoute, k)
+				}
+			}
+		}
 		switch ws[3] {
 		case "gone":
 			delete(w.dp.NameToLink, ws[1])
@@ -195,6 +236,14 @@ func exec(w *world, op string) string {
 			if l, ok := w.dp.NameToLink[ws[1]]; ok && l.LinkAttrs.Index == idx {
 				w.dp.SetIface(ws[1], up, up)
 			} else {
+				if ok {
+					// re-created with another index: the kernel dropped the routes of the old interface
+					for k, r := range w.dp.RouteKeyToRoute {
+						if r.LinkIndex == l.LinkAttrs.Index {
+							delete(w.dp.RouteKeyToRoute, k)
+						}
+					}
+				}
 				delete(w.dp.NameToLink, ws[1])
 				w.dp.AddIface(idx, ws[1], up, up)
 			}
@@ -206,8 +255,6 @@ func exec(w *world, op string) string {
 			w.ifaces[ws[1]] = [2]int{idx, u}
 			w.tbl.OnIfaceStateChanged(ws[1], idx, st)
 		}
-		w.tbl.QueueResync()
-		w.needFull = true
 		return "ok"
 	case "kroute":
 		w.dp.AddMockRoute(mkRoute(ws[1], atoi(ws[2]), ws[3], atoi(ws[4]), ws[5]))
@@ -270,6 +317,9 @@ func exec(w *world, op string) string {
 		if strings.Contains(ws[1], "d") {
 			f |= mocknetlink.FailNextRouteDel
 		}
+		if strings.Contains(ws[1], "n") {
+			f |= mocknetlink.FailNextLinkByName
+		}
 		w.dp.FailuresToSimulate = f
 		before := map[string]netlink.Route{}
 		for k, r := range w.dp.RouteKeyToRoute {
@@ -278,13 +328,20 @@ func exec(w *world, op string) string {
 		exp := w.expected()
 		// Felix's picture of the table is trustworthy during this Apply iff it is fresh or re-read first
 		viewOK := w.fresh || w.needFull
+		hadR := f&mocknetlink.FailNextRouteList != 0
+		needFullBefore := w.needFull
 		err := w.tbl.Apply()
+		if hadR && !needFullBefore && w.dp.FailuresToSimulate&mocknetlink.FailNextRouteList == 0 {
+			// the listing failure was hit by a per-interface rescan (resyncIface), which swallows it
+			w.tainted = true
+		}
 		w.dp.FailuresToSimulate = 0
 		after := w.kernel()
 		// unowned_routes_unchanged: a route Felix does not own, to a destination Felix does not want, is untouched
 		for k, r := range before {
 			c := r.Dst.String()
-			if _, wanted := exp[c]; wanted || w.ownedByFelix(r) || !viewOK {
+			if _, wanted := exp[c]; wanted || w.ownedByFelix(r) || !viewOK || int(r.Protocol) == proto {
+				// (a route carrying Felix's exclusive protocol is Felix's own even if its interface has since been renumbered)
 				// (with a stale picture Felix deletes by destination what it believes is its own route)
 				continue
 			}
@@ -296,13 +353,18 @@ func exec(w *world, op string) string {
 		if err == nil {
 			if w.needFull {
 				w.fresh = true
+				w.tainted = false
 			}
 			w.needFull = false
 			// routes_converge + class_priority_wins (only demanded when Felix has re-read the table since
 			// the last out-of-band edit: a successful Apply without a resync does not look at the kernel)
 			for c, e := range exp {
 				if w.fresh && after[c] != e {
-					w.h.OracleFail("route-not-converged", "after a successful Apply the kernel route for a desired destination is not the class-priority winner",
+					sig := "route-not-converged"
+					if w.tainted {
+						sig = "route-not-converged-after-swallowed-rescan-list-error"
+					}
+					w.h.OracleFail(sig, "after a successful Apply the kernel route for a desired destination is not the class-priority winner",
 						map[string]any{"cidr": c, "kernel": after[c], "expected": e, "op": op})
 				}
 			}
@@ -310,14 +372,18 @@ func exec(w *world, op string) string {
 			if w.fresh {
 				for _, r := range w.dp.RouteKeyToRoute {
 					if _, wanted := exp[r.Dst.String()]; !wanted && w.ownedByFelix(r) {
-						w.h.OracleFail("stale-owned-route", "after a successful Apply a route Felix owns but does not want is still present",
+						sig := "stale-owned-route"
+						if w.tainted {
+							sig = "stale-owned-route-after-swallowed-rescan-list-error"
+						}
+						w.h.OracleFail(sig, "after a successful Apply a route Felix owns but does not want is still present",
 							map[string]any{"route": r.Dst.String() + "=" + showRoute(r), "op": op})
 					}
 				}
 			}
-			return "ok " + showK(after)
+			return "ok " + w.showAll()
 		}
-		return "err " + showK(after)
+		return "err " + w.showAll()
 	}
 	panic("unknown op " + op)
 }
@@ -360,6 +426,35 @@ func genCase(h *rt.H) []string {
 		ops = append(ops, kroute())
 	}
 	n := 6 + h.Intn(18)
+	pending := 0 // interfaces possibly queued for a per-interface rescan
+	applyOp := func(allowList bool) string {
+		// listing failures and per-route failures are not mixed in one Apply, and a listing failure is only
+		// injected while at most one interface is queued for a rescan: otherwise which interface (or which
+		// route, in the last attempt) is hit depends on Go map order
+		f := ""
+		if h.Bool() {
+			if allowList {
+				for _, c := range []string{"l", "r", "n"} {
+					if h.Intn(4) == 0 {
+						f += c
+					}
+				}
+			}
+		} else {
+			for _, c := range []string{"p", "d"} {
+				if h.Intn(4) == 0 {
+					f += c
+				}
+			}
+		}
+		if f == "" {
+			f = "-"
+		}
+		if !strings.Contains(f, "n") {
+			pending = 0
+		}
+		return "apply " + f
+	}
 	for i := 0; i < n; i++ {
 		switch k := h.Intn(20); {
 		case k < 4:
@@ -387,30 +482,26 @@ func genCase(h *rt.H) []string {
 			ops = append(ops, fmt.Sprintf("upd %d %s %s %s %s", h.Intn(4), ifc, rt.Pick(h, cidrs), gw, kind))
 		case k < 9:
 			ops = append(ops, fmt.Sprintf("rem %d %s %s", h.Intn(4), rt.Pick(h, ifNames[:5]), rt.Pick(h, cidrs)))
-		case k < 14:
-			// listing failures and per-route failures are not mixed in one Apply: a per-route failure that
-			// lands in the second (last) attempt leaves a kernel state that depends on Go map order
-			f := ""
-			grp := []string{"l", "r"}
-			if h.Bool() {
-				grp = []string{"p", "d"}
-			}
-			for _, c := range grp {
-				if h.Intn(4) == 0 {
-					f += c
-				}
-			}
-			if f == "" {
-				f = "-"
-			}
-			ops = append(ops, "apply "+f)
-		case k < 16:
+		case k < 13:
+			ops = append(ops, applyOp(pending <= 1))
+		case k < 17:
 			nme := rt.Pick(h, ifNames)
-			st := rt.Pick(h, []string{"up", "down", "gone", "up"})
+			st := rt.Pick(h, []string{"up", "down", "gone", "up", "flap"})
 			if st == "up" && h.Intn(4) == 0 {
 				idx[nme] += 100 // interface recreated with a new index
 			}
+			if st == "flap" {
+				// down and up again between two applies: the kernel has dropped the routes
+				ops = append(ops, fmt.Sprintf("iface %s %d down", nme, idx[nme]))
+				st = "up"
+			}
 			ops = append(ops, fmt.Sprintf("iface %s %d %s", nme, idx[nme], st))
+			if st == "up" {
+				pending++
+				if h.Intn(3) != 0 {
+					ops = append(ops, applyOp(pending <= 1))
+				}
+			}
 		case k < 18:
 			ops = append(ops, kroute())
 		case k < 19:
